@@ -225,6 +225,51 @@ func genInput(r *RNG, n int, fam string) []byte {
 		for i := range b {
 			b[i] = list[i%len(list)]
 		}
+	case "unevenruns":
+		// runs of one byte of different lengths (mostly a little above 256, the
+		// depth at which substring sorters like to stop comparing) behind an
+		// identical context and ended by the same byte
+		c, d := base, base+1+byte(r.Intn(3))
+		if r.Chance(0.3) {
+			c, d = 0x00, 0xff
+		}
+		lo := r.Pick(2, 250, 257, 257, 270, 500)
+		i := 0
+		for i < len(b) {
+			l := lo + r.Intn(16)
+			for ; l > 0 && i < len(b); l-- {
+				b[i] = c
+				i++
+			}
+			if i < len(b) {
+				b[i] = d
+				i++
+			}
+		}
+	case "prefixedrecords":
+		// numbered records that each start with the same periodic string of
+		// two low bytes ("$%$%$%00017\n"); the block of records occurs twice
+		// and a tail of high bytes follows: a tandem repeat among the sorted
+		// suffixes together with long repeated material in text order (what
+		// exhausts a rank sorter's budget)
+		p0 := byte(0x20 + r.Intn(16))
+		p1 := p0 + 1 + byte(r.Intn(4))
+		reps := 3 + r.Intn(8)
+		tail := []int{0, len(b) / 50, len(b) / 5, len(b) / 3}[r.Intn(4)]
+		recLen := 2*reps + 6
+		nrec := (len(b) - tail) / (2 * recLen)
+		var blk []byte
+		for j := 0; j < nrec; j++ {
+			for k := 0; k < reps; k++ {
+				blk = append(blk, p0, p1)
+			}
+			blk = append(blk, byte('0'+j/10000%10), byte('0'+j/1000%10), byte('0'+j/100%10), byte('0'+j/10%10), byte('0'+j%10), '\n')
+		}
+		i := copy(b, blk)
+		i += copy(b[i:], blk)
+		for ; i < len(b); i++ {
+			b[i] = byte(128 + r.Intn(128))
+		}
 	case "bigrecords":
 		// a few records of 8 to 100 KiB in an order with repetitions
 		// (X A X X B A ...): matches of tens of KiB, also adjacent repeats
